@@ -347,12 +347,12 @@ def invalid(ctx, t):
     if what == 'negative':
         tgt = A if side == 0 else B
         # just below zero, or a valid id minus 2**8 / 2**16 (it would wrap into range if the array were narrowed)
-        cands = [-1 - t.draw(3)] + [v - 2 ** b for b in (8, 16) for v in (t.draw(nside),) if v - 2 ** b >= info.min]
+        cands = [-1 - t.draw(3)] + [v - 2 ** b for b in (8, 16, 32) for v in (t.draw(nside),) if v - 2 ** b >= info.min]
         tgt[t.draw(nfr), t.draw(tgt.shape[1])] = t.choice(cands)
         ctx.hit('invalid_negative')
     elif what == 'too_large':
         tgt = A if side == 0 else B
-        cands = [nside + t.draw(3)] + [v + 2 ** b for b in (8, 16) for v in (t.draw(nside),) if v + 2 ** b <= info.max]
+        cands = [nside + t.draw(3)] + [v + 2 ** b for b in (8, 16, 32) for v in (t.draw(nside),) if v + 2 ** b <= info.max]
         cands = [c for c in cands if c <= info.max]
         if not cands:
             cands = [info.max]
